@@ -1,7 +1,7 @@
 (* C01 — Trial budget: at most maxTrialCount trials ever, at most parallelTrialCount non-completed at any instant.
    Theorems over the joint controller model (Model/World.v): every interleaving of the three reconcilers with lagging
    caches, gated writes, injected write failures, aborts, job/metrics/early-stop events and the user raising maxTrialCount. *)
-From KV Require Import Base.Prelude Base.Cond Model.World Proofs.WorldPlan Proofs.WorldInv Proofs.WorldInv2 Proofs.WorldInv5 Proofs.WorldThm.
+From KV Require Import Base.Prelude Base.Cond Model.World Proofs.WorldPlan Proofs.WorldInv Proofs.WorldInv2 Proofs.WorldInv5 Proofs.WorldThm Proofs.WorldNoCreate.
 Open Scope Z_scope.
 
 (* In every state reachable without teardown the number of trials in the store never exceeds the CURRENT
@@ -48,6 +48,30 @@ Theorem C01_no_create_after_verdict_plan : forall cf e sug ws st1 stop,
   e_completed (e_st e) = true -> restart_enabled_e cf e = false -> st1 = e_st e.
 Proof. exact plan_completed_stable. Qed.
 Print Assumptions C01_no_create_after_verdict_plan.
+
+(* THE third sentence of the property, over runs: in a state reached by any history without teardown whose stored experiment
+   carries a Succeeded or Failed verdict that the user has not enabled to restart, the next action -- a reconcile of any
+   controller reading arbitrarily stale caches, a pending write landing or failing, an abort, a job or metrics event, an
+   early stop, a cache sync, an edit of maxTrialCount -- creates no trial.  Behind it: the caches always justify a settled
+   verdict (recomputing the status from them gives a verdict again: the trial list only moves forward, an objective value
+   once reported stays, a completed trial keeps its class, a failed suggestion stays failed), a completed status pending in
+   the experiment controller's write list is justified for the experiment version it was planned from, and a status
+   write is the last write of its reconcile. *)
+Theorem C01_no_create_after_verdict : forall c acts a e,
+  valid_cfg c -> no_teardown (acts ++ [a]) ->
+  w_exp (run c acts) = Some e -> e_completed (e_st e) = true -> restart_enabled_e c e = false ->
+  names (w_trials (run c (acts ++ [a]))) = names (w_trials (run c acts)).
+Proof. exact no_create_after_verdict. Qed.
+Print Assumptions C01_no_create_after_verdict.
+
+(* ... so for as long as the verdict stands and no restart is enabled the set of trials stays exactly what it was. *)
+Theorem C01_no_create_while_settled : forall c acts1 acts2,
+  valid_cfg c -> no_teardown (acts1 ++ acts2) ->
+  (forall pre post, acts2 = pre ++ post -> post <> [] ->
+     exists e, w_exp (run c (acts1 ++ pre)) = Some e /\ e_completed (e_st e) = true /\ restart_enabled_e c e = false) ->
+  names (w_trials (run c (acts1 ++ acts2))) = names (w_trials (run c acts1)).
+Proof. exact no_create_while_settled. Qed.
+Print Assumptions C01_no_create_while_settled.
 
 (* Non-vacuity: a concrete run (finalizer, creation, suggestion, deployment, reply, trial creation) that reaches the
    budget of two trials with both of them non-completed. *)
